@@ -273,6 +273,10 @@ def plus_cases(g, rng, thorough):
         pb = S.Bits(); pb.extend(prevb); pb.put(0, 7)
         one("ufep0-inherit", prev=pb.to_bytes(), pfn=1, ufep=0, inherited=inherited, rps=rps, trpi=5 if rps else None,
             ptype=1, rru=bits % 2)
+        # the same with the previous header exactly as it was parsed (it carries its custom format): a header that does
+        # not retransmit the format has not changed it, so it must parse and inherit
+        one("ufep0-inherit-after-parsed-header", prev=pb.to_bytes(), pfn=0, ufep=0, inherited=inherited, rps=rps, trpi=5 if rps else None,
+            ptype=1, rru=bits % 2)
     one("ufep0-no-prev", ufep=0, ptype=1)
     # ... and with scalability negotiated: ELNUM is present, RLNUM is not (5.1.12: RLNUM only when UFEP = 001)
     for e in range(16):
